@@ -61,6 +61,22 @@ check("C26", "exploration", "bounded-exhaustive history exploration on the real 
       "Every op sequence up to depth 2 (quick) / 4 (thorough) over {put of a sentence the rules engine extracts a card from, same with instant index + enable_embedding (fills the enrichment queue), chunked put, plain put, delete, update, commit, close+open, leaked handle}, also from states where WAL sequence numbers and frame ids have diverged. After every commit/open and at the end: each card names an existing frame whose uri is the card's source uri and whose text contains the card value; each enrichment record names a frame that is the source of a card; each enrichment-queue entry names a frame that was queued.",
       "Card source uris are taken from the cards themselves (the extractor records them).", "DESIGN.md §3 C26", "hist")
 
+check("C07", "exploration", "bounded-exhaustive payload enumeration on the real implementation",
+      "One put per case (commit, read, close+open, read) over 10 payload lengths x 8 fillers (zero, 0xFF, ASCII, 2- and 4-byte UTF-8, broken UTF-8 tail, interior NUL, incompressible) and texts whose normalized length is exactly 2399/2400/2401/3601 characters in plain, table and code-fence shape, x 5 option sets; then every ordered pair of a boundary set (4 items quick, 10 thorough). Whole-stored payloads must come back byte-identical from frame_canonical_payload and blob_reader with a checksum equal to BLAKE3 of the stored bytes; chunked documents must equal the concatenation of their chunk frames and, when unstructured, the normalized text.",
+      "no_raw puts store nothing by design and are outside the property. The reference for 'normalized text' is normalize_text itself (decided by C33).", "DESIGN.md §3 C07", "hist")
+check("C09", "exploration", "bounded-exhaustive corpus x query enumeration on the real implementation",
+      "Corpora of n documents (every subset planted for n <= 3 quick / n <= 5 thorough; patterns for n in {5,21,40}; mixed lengths; a text-less frame before/between documents; ingested with and without the instant index), documents of 3/12/60/200 distinct pseudo-words in 5-word sentences, the query word planted once or three times far apart; searched with top_k = k and k+3, with and without the sketch pre-filter, after commit and after close+open. Oracle: the hit frame ids include every planted frame whenever k <= top_k.",
+      "A put is not a frame before its commit, so pre-commit searches are not part of this property. Pseudo-words end in 'q' so that the English stemmer leaves them alone.", "DESIGN.md §3 C09", "corpus")
+check("C10", "exploration", "bounded-exhaustive query enumeration on the real implementation against an independent evaluator",
+      "One 6-document corpus (two scopes, tags, labels, a track, two days of timestamps, one chunked document, one document with an exact phrase) x every query AST of <= 3 (quick) / <= 4 (thorough) nodes over 9 leaves with AND / implicit AND / OR / NOT x request filters {none, uri, scope} x top_k {1,3,10} x snippet_chars {0,80,200}, after commit and after close+open. Every hit must name an existing active frame that an independent 40-line evaluator accepts, respect the request filters, be ranked 1..n within top_k, and its text must equal the document text at its range, inside its chunk range, whose text must equal the document text at that range.",
+      "For chunk frames the document text is the parent's canonical payload. A search that returns Err is recorded as 'no hits'.", "DESIGN.md §3 C10", "corpus")
+check("C11", "exploration", "bounded-exhaustive corpus x query enumeration on the real implementation",
+      "Corpora of n <= 4 (quick) / n <= 5 (thorough) short and long documents with timestamps {10,20,20,30,40}, the query word planted in subsets; for two query words, with and without the sketch pre-filter and a date-range term: as_of_frame in 0..=n and as_of_ts in {5,10,20,25,40,50}; every hit must have id <= as_of_frame / timestamp <= as_of_ts and be among the unfiltered hits; after commit and after close+open.",
+      "", "DESIGN.md §3 C11", "corpus")
+check("C16", "exploration", "bounded-exhaustive corpus x page-size enumeration on the real implementation",
+      "Corpora with m in {1,3,7,20,21,25} (quick) / {1,2,3,7,19,20,21,25,41} (thorough) matching documents a day apart, every third with two snippet slices; a text query and a pure field query; for every page size 1..10 the cursor is followed to the end and the concatenation is compared with one request of top_k = 200: same (frame, range) sequence, constant total_hits; after commit and after close+open.",
+      "The legacy LexIndex path cannot be reached in a default build (new files never contain that index).", "DESIGN.md §3 C16", "corpus")
+
 NOT_APPLICABLE = {}
 
 def main():
@@ -104,6 +120,8 @@ def main():
              "kind_free_text": "bounded-exhaustive enumeration of inputs of real pure functions, all 16 cores, per-case panic guard"},
             {"name": "hist", "path": "harness/src/hist.rs, h_run.rs, h_*.rs", "serves_properties": [p for p, c in CHECKS.items() if c["engine"] == "hist"],
              "kind_free_text": "level-wise exhaustive enumeration of op histories; each history runs on a real Memvid in a worker subprocess and is compared with a reference model"},
+            {"name": "corpus", "path": "harness/src/corpus.rs, q_*.rs", "serves_properties": [p for p, c in CHECKS.items() if c["engine"] == "corpus"],
+             "kind_free_text": "a worker builds each enumerated corpus with the real API and answers every enumerated request at each stage; the parent evaluates the oracle"},
             {"name": "walmc", "path": "harness/src/s_wal.rs", "serves_properties": ["C05"],
              "kind_free_text": "explicit-state BFS over the real EmbeddedWal with exact state dedup; states reached by history re-execution"},
         ],
